@@ -61,15 +61,3 @@ pub open spec fn no_tvar(t: Ty) -> bool
         _ => true,
     }
 }
-pub open spec fn extends(o: Map<Seq<char>, Ty>, n: Map<Seq<char>, Ty>) -> bool {
-    forall|k: Seq<char>| #[trigger] o.contains_key(k) ==> n.contains_key(k) && n[k] == o[k]
-}
-
-pub broadcast proof fn lemma_extends_trans(a: Map<Seq<char>, Ty>, b: Map<Seq<char>, Ty>, c: Map<Seq<char>, Ty>)
-    requires #[trigger] extends(a, b), #[trigger] extends(b, c),
-    ensures extends(a, c),
-{
-    assert forall|k: Seq<char>| a.contains_key(k) implies c.contains_key(k) && c[k] == a[k] by {
-        assert(b.contains_key(k) && b[k] == a[k]);
-    }
-}
